@@ -306,12 +306,12 @@ impl Simplifier {
 
             // ## Exponentiation ##
 
-            // Exponentiation with zero (0⁰ = 1)
-            (Expression::Number(x), InfixOperator::Caret, _) if is_zero(*x) => {
-                interned::number(ZERO)
-            }
+            // Exponentiation with zero (0⁰ = 1, so the exponent is checked first)
             (_, InfixOperator::Caret, Expression::Number(y)) if is_zero(*y) => {
                 interned::number(ONE)
+            }
+            (Expression::Number(x), InfixOperator::Caret, _) if is_zero(*x) => {
+                interned::number(ZERO)
             }
 
             // Exponentiation with one
